@@ -18,11 +18,18 @@ def norm_callee(d):
     return "::".join(parts[-2:])
 
 
-def match(pat, val):
+def match(pat, val, _top=True):
+    if _top:
+        from ..trace import canon_slices
+        return _match(canon_slices(pat), canon_slices(val))
+    return _match(pat, val)
+
+
+def _match(pat, val):
     if pat == ANY:
         return True
     if isinstance(pat, tuple) and pat and pat[0] == "anyof":
-        return any(match(p, val) for p in pat[1])
+        return any(_match(p, val) for p in pat[1])
     if isinstance(pat, frozenset):
         if not isinstance(val, frozenset) or len(pat) != len(val):
             return False
@@ -30,7 +37,7 @@ def match(pat, val):
         for p in pat:
             hit = None
             for v in rest:
-                if match(p, v):
+                if _match(p, v):
                     hit = v
                     break
             if hit is None:
@@ -42,8 +49,8 @@ def match(pat, val):
             return False
         if pat and pat[0] == "+" and val and val[0] == "+":
             # commutative
-            return match(frozenset(pat[1:]), frozenset(val[1:]))
-        return all(match(p, v) for p, v in zip(pat, val))
+            return _match(frozenset(pat[1:]), frozenset(val[1:]))
+        return all(_match(p, v) for p, v in zip(pat, val))
     return pat == val
 
 
